@@ -74,7 +74,7 @@ func main() {
 		for _, k := range keys {
 			units := eng.unitsFor(k)
 			for _, u := range units {
-				res := eng.verifyFunc(u.key, u.against, u.prefix)
+				res := eng.verifyUnit(u)
 				name := u.key
 				if u.prefix != "" {
 					name += " [" + u.prefix + "]"
@@ -138,12 +138,19 @@ type unit struct {
 	key     string
 	against *FuncContract
 	prefix  string
+	caseIdx int // 1-based case of a `split` contract, 0 = none
 }
 
 // unitsFor lists the verification units of a function: its own contract and
 // one refinement unit per `refines` clause.
 func (e *Engine) unitsFor(key string) []unit {
 	us := []unit{{key: key}}
+	if fc := e.cs.Funcs[key]; fc != nil && len(fc.Cases) > 0 {
+		us = nil
+		for i := range fc.Cases {
+			us = append(us, unit{key: key, caseIdx: i + 1, prefix: "case:" + labelOr(fc.Cases[i].Label, i)})
+		}
+	}
 	if fc := e.cs.Funcs[key]; fc != nil {
 		for _, r := range fc.Refines {
 			if a := e.cs.Funcs[r]; a != nil {
